@@ -18,6 +18,108 @@ def x5_sites(repo, funcs):
     return []
 
 
+NUMERIC_SINK_CALLS = ("Integer", "pow", "construct", "DsaKey", "RsaKey", "ElGamalKey", "bytes_to_long", "long_to_bytes", "range", "inverse")
+
+
+def _is_mixed_decode(call):
+    """`DerSequence().decode(data ...)` without only_ints_expected=True: the members that are not INTEGERs stay
+    byte strings."""
+    if not (isinstance(call, ast.Call) and isinstance(call.func, ast.Attribute) and call.func.attr == "decode"):
+        return False
+    recv = call.func.value
+    if not (isinstance(recv, ast.Call) and norm(recv.func).split(".")[-1] == "DerSequence"):
+        return False
+    for kw in call.keywords:
+        if kw.arg == "only_ints_expected" and isinstance(kw.value, ast.Constant) and kw.value.value is True:
+            return False
+    return True
+
+
+def x6_sites(repo, funcs):
+    """X6: a member of a DER SEQUENCE decoded without `only_ints_expected=True` may be a byte string (any member that
+    is not an INTEGER is kept as its raw encoding).  Using such a member as a number - Integer(m), pow(), arithmetic,
+    an ordering comparison, construct((.., m, ..)) - raises TypeError (NotImplementedError with the GMP back-end)
+    instead of the documented ValueError.  Sanitisers: `seq.hasOnlyInts()` / `isinstance(m, int)` tests, or any
+    other call that takes the member (it is decoded again or type-checked there)."""
+    out = []
+    for (m, f) in funcs.values():
+        seqs, elems, holders = set(), set(), set()
+        sanitised = set()
+        body = list(walk_no_nested(f))
+        for n in body:
+            if isinstance(n, ast.Call) and isinstance(n.func, ast.Attribute) and n.func.attr == "hasOnlyInts":
+                sanitised.add(norm(n.func.value))
+            if isinstance(n, ast.Call) and norm(n.func) == "isinstance" and n.args:
+                sanitised.add(norm(n.args[0]))
+
+        def src_kind(v):
+            """'seq' if v evaluates to a mixed sequence, 'elem' if to a possibly-bytes member."""
+            if _is_mixed_decode(v):
+                return "seq"
+            if isinstance(v, ast.Call) and norm(v.func) in ("list", "tuple") and v.args:
+                return src_kind(v.args[0])
+            if isinstance(v, ast.Name) and v.id in seqs:
+                return "seq"
+            if isinstance(v, ast.Name) and v.id in elems:
+                return "elem"
+            if isinstance(v, ast.Subscript):
+                k = src_kind(v.value)
+                if k == "seq":
+                    return "seq" if isinstance(v.slice, ast.Slice) else "elem"
+            return None
+        changed = True
+        rounds = 0
+        while changed and rounds < 6:
+            changed = False
+            rounds += 1
+            for n in body:
+                if isinstance(n, ast.Assign) and len(n.targets) == 1:
+                    t, v = n.targets[0], n.value
+                    k = src_kind(v)
+                    if isinstance(t, ast.Name):
+                        if k == "seq" and t.id not in seqs:
+                            seqs.add(t.id); changed = True
+                        elif k == "elem" and t.id not in elems:
+                            elems.add(t.id); changed = True
+                        elif isinstance(v, (ast.Tuple, ast.List)) and any(src_kind(e) == "elem" for e in v.elts) and t.id not in holders:
+                            holders.add(t.id); changed = True
+                        elif isinstance(v, ast.ListComp) and src_kind(v.elt) == "elem" and t.id not in holders:
+                            holders.add(t.id); changed = True
+                    elif isinstance(t, (ast.Tuple, ast.List)) and k == "seq":
+                        for e in t.elts:
+                            if isinstance(e, ast.Name) and e.id not in elems:
+                                elems.add(e.id); changed = True
+        if not seqs and not elems:
+            continue
+
+        def tainted(e):
+            if src_kind(e) == "elem":
+                base = e.value if isinstance(e, ast.Subscript) else e
+                return norm(e) not in sanitised and norm(base) not in sanitised
+            return False
+        seen = set()
+        for n in body:
+            hit = None
+            if isinstance(n, ast.Call) and norm(n.func).split(".")[-1] in NUMERIC_SINK_CALLS:
+                for a in list(n.args) + [k.value for k in n.keywords]:
+                    if tainted(a) or (isinstance(a, ast.Name) and a.id in holders) or \
+                            (isinstance(a, (ast.Tuple, ast.List)) and any(tainted(x) for x in a.elts)):
+                        hit = (n, "`%s` hands a member of a SEQUENCE decoded without only_ints_expected to %s" % (norm(n)[:70], norm(n.func)))
+            elif isinstance(n, ast.BinOp) and not isinstance(n.op, ast.Mod if False else ()):
+                if isinstance(n.op, (ast.Add, ast.Sub, ast.Mult, ast.FloorDiv, ast.Mod, ast.Pow, ast.LShift, ast.RShift, ast.BitAnd, ast.BitOr)) and \
+                        (tainted(n.left) or tainted(n.right)) and not isinstance(n.left, ast.Constant) or \
+                        (isinstance(n.left, ast.Constant) and isinstance(n.left.value, int) and tainted(n.right)):
+                    if tainted(n.left) or tainted(n.right):
+                        hit = (n, "`%s` does arithmetic on a member of a SEQUENCE decoded without only_ints_expected" % norm(n)[:70])
+            elif isinstance(n, ast.Compare) and any(isinstance(o, (ast.Lt, ast.LtE, ast.Gt, ast.GtE)) for o in n.ops):
+                if any(tainted(x) for x in [n.left] + list(n.comparators)):
+                    hit = (n, "`%s` orders a member of a SEQUENCE decoded without only_ints_expected" % norm(n)[:70])
+            if hit and id(hit[0]) not in seen:
+                seen.add(id(hit[0]))
+                out.append((m, f, hit[0], hit[1]))
+    return out
+
+
 # (driver expression, [(label, der bytes, accepted?)])
 DER_TABLE = [
     ("DerOctetString().decode(data)", [
